@@ -1521,7 +1521,7 @@ theorem minv_reset {p : GenParams} {ec : EnvCfg} {F : FilterCfg} {sp0 : Space} {
     rw [h.env_ec hf, h.hec]
   unfold MultiEnv.reset
   cases hg : m.gs.next m.p with
-  | error e => exact h
+  | error e => exact ⟨h.hp, h.hec, h.hF, h.hsp, h.env⟩
   | ok r =>
     obtain ⟨I, n, gs'⟩ := r
     simp only
